@@ -49,7 +49,12 @@ RULE = ("random DAGs of 0-25 objects (contents, skipped contents, directories bu
         "that stays empty) / None / omitted (then no event is expected); the archive as instance with closures, class "
         "with bound methods, callable-instance attributes (falsy), static methods on a falsy instance, __slots__; its "
         "answers as list / generator / iterator / tuple / set / frozenset / dict_keys; the input containers as list or "
-        "list subclass (the code takes len() of them, so one-shot iterables are outside the signature).  DEEP hierarchies "
+        "list subclass (the code takes len() of them, so one-shot iterables are outside the signature); what each "
+        "*_missing method does to the LIST IT RECEIVES after reading it: nothing / pops it empty / clear() / removes "
+        "the known or the missing ids in place / sort / reverse / shuffle / extends it with foreign ids / replaces "
+        "elements; further answer shapes: the very list received filtered in place, an iterator over it, one list the "
+        "archive keeps and refills at every call (aliasing between rounds), ids as instances of a bytes subclass.  Every "
+        "run is bounded by 3 x objects + 6 archive queries (NonTermination = violation).  DEEP hierarchies "
         "(4 per quick run, 40 per thorough run): chains of 1200-2000 nested directories with 0-2 (skipped) contents "
         "per level, combs (a leaf directory at every level of the spine), two chains sharing a long tail, with archives "
         "knowing nothing / everything / the bottom k levels, SAMPLE_SIZE 1, 3, 1000, all three samplers; termination "
@@ -61,6 +66,8 @@ TRUSTED = ["Python set/dict semantics as modelled in model/Discovery.v (sets = d
            "the three archive methods are modelled by one function `missing` on ids (ids pairwise distinct)"]
 ASSUMPTIONS = ["update_info_callback is any callable taking (obj, known) - nothing is assumed about its type, truth value "
                "or length; callables whose __eq__/__bool__ RAISE are not generated",
+               "the archive's answers depend only on the ids asked (a fixed set of missing ids); it may do anything to the "
+               "list object it is handed and may reuse the list object it returns",
                "archive.contents / skipped_contents / directories are lists (or list subclasses), as the interface types them",
                "the ids of the given contents, skipped contents and directories are pairwise distinct",
                "the archive answers consistently with a set of missing ids such that a known directory has only known "
@@ -201,6 +208,8 @@ def mk_case(rng, n, shape, ss, strategy, missing_mode):
         case["cb"] = rng.choice(CALLBACK_SHAPES[1:])
     if rng.random() < 0.4:
         case["archive"] = rng.choice(ARCHIVE_SHAPES[1:])
+    if rng.random() < 0.4:
+        case["arg"] = rng.choice(ARG_SHAPES[1:])
     if rng.random() < 0.25:
         case["containers"] = rng.choice(CONTAINER_SHAPES[1:])
     return case
@@ -324,12 +333,18 @@ def gen_deep(rng, tier):
                     density=0.15 if tier == "quick" else 1.0)
         if rng.random() < 0.5:
             c["cb"] = rng.choice(CALLBACK_SHAPES[1:-2])
+        if rng.random() < 0.5:
+            c["arg"] = rng.choice(ARG_SHAPES[1:])
         cases.append(c)
     return cases
 
 
 # first item = the default when the key is absent from a case
-ANSWER_SHAPES = ["list", "generator", "iterator", "tuple", "set", "frozenset", "dict_keys"]
+ANSWER_SHAPES = ["list", "generator", "iterator", "tuple", "set", "frozenset", "dict_keys",
+                 "same_list", "iter_over_arg", "kept_list", "bytes_subclass"]
+# what a *_missing method does to the list it was handed (after reading it)
+ARG_SHAPES = ["untouched", "pop_all", "clear", "remove_known", "remove_missing", "sort", "reverse", "shuffle",
+              "extend_foreign", "replace"]
 CALLBACK_SHAPES = ["function", "lambda", "bound_method", "partial", "instance", "positional",
                    "falsy_bool", "falsy_list", "falsy_dict", "falsy_counter", "falsy_stays", "none", "omitted"]
 NO_CALLBACK = ("none", "omitted")
@@ -356,6 +371,8 @@ def gen(rng, tier):
     cases += [dict(ex, cb=cb) for cb in CALLBACK_SHAPES[1:]]
     cases += [dict(ex, archive=a, answer=ans) for a, ans in zip(ARCHIVE_SHAPES[1:] + ARCHIVE_SHAPES[1:3], ANSWER_SHAPES[1:])]
     cases += [dict(ex, containers="list_subclass", cb="falsy_dict", archive="methods")]
+    cases += [dict(ex, arg=a, ss=k % 2 + 1) for k, a in enumerate(ARG_SHAPES[1:])]
+    cases += [dict(ex, answer=a, arg="reverse") for a in ANSWER_SHAPES[7:]]
     shapes = ["flat", "deep", "shared", "mixed", "dirs-only"]
     modes = ["few", "half", "leaf", "few", "half", "none", "all"]
     strategies = ["random", "deep", "shallow"]
@@ -417,7 +434,8 @@ def classify(c):
     if "hashseed" in c:
         ks.append("subprocess-hashseed")
     ks += ["callback=" + c.get("cb", CALLBACK_SHAPES[0]), "archive=" + c.get("archive", ARCHIVE_SHAPES[0]),
-           "answer=" + c.get("answer", ANSWER_SHAPES[0]), "containers=" + c.get("containers", CONTAINER_SHAPES[0])]
+           "answer=" + c.get("answer", ANSWER_SHAPES[0]), "containers=" + c.get("containers", CONTAINER_SHAPES[0]),
+           "argument=" + c.get("arg", ARG_SHAPES[0])]
     return ks
 
 
@@ -507,7 +525,43 @@ class _FakeRandom:
         return list(res)
 
 
-def shape_answer(shape, ans):
+class _Id(bytes):
+    """an id that is a bytes subclass: equal to, and hashing like, the plain bytes"""
+    __slots__ = ()
+
+
+def mutate_argument(shape, arg, ans):
+    """what the archive does to the list it was handed, once it has read it (`ans` = the missing ones, in order).
+    Only lists are touched: the interface types the argument as List[Sha1Git]."""
+    if not isinstance(arg, list) or shape == "untouched":
+        return
+    import hashlib
+    foreign = [hashlib.sha1(b"foreign %d" % j).digest() for j in range(3)]
+    if shape == "pop_all":          # pop-based batching
+        while arg:
+            arg.pop()
+    elif shape == "clear":
+        arg.clear()
+    elif shape == "remove_known":   # in-place filter: only the missing ids stay
+        arg[:] = ans
+    elif shape == "remove_missing":
+        gone = set(ans)
+        for b in [b for b in arg if b in gone]:
+            arg.remove(b)
+    elif shape == "sort":
+        arg.sort()
+    elif shape == "reverse":
+        arg.reverse()
+    elif shape == "shuffle":
+        _random.Random(len(arg)).shuffle(arg)
+    elif shape == "extend_foreign":
+        arg.extend(foreign)
+    elif shape == "replace":
+        for j in range(0, len(arg), 2):
+            arg[j] = foreign[j % 3]
+
+
+def shape_answer(shape, ans, arg=None, kept=None):
     """the archive's answer (a list of real ids) as one of the iterables the interface allows"""
     if shape == "generator":
         return (b for b in ans)
@@ -521,6 +575,15 @@ def shape_answer(shape, ans):
         return frozenset(ans)
     if shape == "dict_keys":
         return dict.fromkeys(ans).keys()
+    if shape in ("same_list", "iter_over_arg") and isinstance(arg, list):
+        arg[:] = ans                # the very list received, filtered in place
+        return arg if shape == "same_list" else iter(arg)
+    if shape == "kept_list" and kept is not None:
+        kept.clear()                # one list owned by the archive, reused (and so mutated) at every later call
+        kept.extend(ans)
+        return kept
+    if shape == "bytes_subclass":
+        return [_Id(b) for b in ans]
     return ans
 
 
@@ -663,14 +726,20 @@ def run_impl(c):
     n = len(back)
     queries, events, draws = [], [], []
 
+    kept = []
+
     def ask(kind):
-        def method(ids):
-            ids = list(ids)
+        def method(arg):
+            ids = list(arg)
+            # every round decides at least one object and asks at most two questions: more than 3 n + 6 queries
+            # means the loop is not making progress
             if len(queries) > 3 * n + 6:
                 raise NonTermination()
             queries.append({"kind": kind, "ids": sorted(back.get(b, -1) for b in ids), "events_before": len(events)})
             ans = [b for b in ids if back.get(b, -1) in missing]
-            return shape_answer(c.get("answer", ANSWER_SHAPES[0]), ans)
+            # the archive's knowledge is what it is; what it does to the container it was handed must not matter
+            mutate_argument(c.get("arg", ARG_SHAPES[0]), arg, ans)
+            return shape_answer(c.get("answer", ANSWER_SHAPES[0]), ans, arg, kept)
         return method
 
     def record(obj, known):
@@ -880,7 +949,7 @@ def _without(c, gone):
 def shrink(c):
     objs = c["contents"] + c["skipped"] + [i for i, _ in c["dirs"]]
     one_empty = lambda dirs: sum(1 for _, cs in dirs if not cs) <= 1    # directories must stay pairwise distinct
-    for key in ("cb", "archive", "answer", "containers"):      # the default shape, if the failure does not need this one
+    for key in ("cb", "archive", "answer", "containers", "arg"):      # the default shape, if the failure does not need this one
         if key in c:
             yield {k: v for k, v in c.items() if k != key}
     if len(objs) > 16:
